@@ -81,8 +81,9 @@ Fixpoint peel (fuel : nat) (inst gen : ty) (depth : nat) : option (ty * ty * nat
 
 Inductive tres := TNil | TPanic | TOk (l : list ty).
 
-(* the loop over paramStructType.instantiatedWith; argStructType.instantiatedWith[i] panics when the
-   argument's generic Kombination has fewer type parameters *)
+(* the loop over paramStructType.instantiatedWith; argStructType.instantiatedWith[i] would panic if the
+   argument had fewer type arguments — excluded since /repo 36809d8 (same generic Kombination, hence same
+   arity: GenericProofs.unify_total) *)
 Fixpoint unify_targs (pargs aargs : list ty) (σ : subst_env) : tres * subst_env :=
   match pargs with
   | [] => (TOk [], σ)
@@ -116,7 +117,10 @@ Definition unify (arity : N -> nat) (st : gstate) (arg param : ty) (σ : subst_e
       | Some (g, pargs) =>
         match ainfo with
         | None => (UNil, σ1, st)
-        | Some (_, aargs) =>
+        | Some (g', aargs) =>
+          (* argStructType.genericType != paramStructType.genericType: not an instantiation of the same
+             generic Kombination (a plain Kombination has genericType nil: the `None` case above) *)
+          if negb (g' =? g) then (UNil, σ1, st) else
           match unify_targs pargs aargs σ1 with
           | (TPanic, σ2) => (UPanic, σ2, st)
           | (TNil, σ2) => (UNil, σ2, st)
